@@ -538,3 +538,168 @@ func goroutineID(stack string) string {
 	}
 	return stack
 }
+
+// ---- concurrent delivery under handle churn -------------------------------------------------
+// What a configuration reload does to a retained address, at full speed: dialers connect
+// continuously while a churn goroutine acquires a new handle (with its accept loop) and then closes
+// the previous one. Some handle is accepting at every instant, so every connection must be accepted
+// and served by exactly one handle; none may be lost, closed unserved, or served twice.
+
+type C12Churn struct {
+	Dialers int   `json:"dialers"`
+	Conns   int   `json:"conns_per_dialer"`
+	Overlap int   `json:"overlap_us"` // how long old and new handle coexist
+	Extra   int   `json:"extra_handles"`
+	Seed    int64 `json:"seed"`
+}
+
+func genC12Churn(t *rapid.T) C12Churn {
+	return C12Churn{Dialers: rapid.IntRange(1, 8).Draw(t, "dialers"), Conns: rapid.IntRange(20, 200).Draw(t, "conns"),
+		Overlap: rapid.SampledFrom([]int{0, 0, 10, 100}).Draw(t, "overlap"), Extra: rapid.IntRange(0, 2).Draw(t, "extra"), Seed: rapid.Int64Range(1, 1<<40).Draw(t, "seed")}
+}
+
+func runC12Churn(c C12Churn, info *kit.Info) *kit.Finding {
+	addr, err := freeAddr(false)
+	if err != nil {
+		info.Skipped = err.Error()
+		return nil
+	}
+	mgr := service.NewListenerManager()
+	var mu sync.Mutex
+	served := map[string]int{}
+	var loops sync.WaitGroup
+	serve := func(ln service.StreamListener) {
+		loops.Add(1)
+		go func() {
+			defer loops.Done()
+			for {
+				conn, err := ln.AcceptStream()
+				if err != nil {
+					return
+				}
+				go func() {
+					defer conn.Close()
+					buf := make([]byte, 8)
+					conn.SetReadDeadline(time.Now().Add(c12Bound))
+					if _, err := io.ReadFull(conn, buf); err == nil {
+						mu.Lock()
+						served[string(buf)]++
+						mu.Unlock()
+						conn.Write([]byte("k"))
+					}
+				}()
+			}
+		}()
+	}
+	cur, err := mgr.ListenStream(addr)
+	if err != nil {
+		info.Skipped = err.Error()
+		return nil
+	}
+	serve(cur)
+	var extras []service.StreamListener
+	for i := 0; i < c.Extra; i++ {
+		if l, err := mgr.ListenStream(addr); err == nil {
+			extras = append(extras, l)
+			serve(l)
+		}
+	}
+	stop := make(chan struct{})
+	churnDone := make(chan *kit.Finding, 1)
+	reloads := 0
+	go func() {
+		for {
+			select {
+			case <-stop:
+				churnDone <- nil
+				return
+			default:
+			}
+			next, err := mgr.ListenStream(addr)
+			if err != nil {
+				churnDone <- kit.Violation("listener:acquire-error", "acquiring a second handle on a held address failed: %v", err)
+				return
+			}
+			serve(next)
+			if c.Overlap > 0 {
+				time.Sleep(time.Duration(c.Overlap) * time.Microsecond)
+			}
+			cur.Close()
+			cur = next
+			reloads++
+		}
+	}()
+	var dialers sync.WaitGroup
+	var fnd kit.Finding
+	var failed bool
+	for d := 0; d < c.Dialers; d++ {
+		dialers.Add(1)
+		go func(d int) {
+			defer dialers.Done()
+			for i := 0; i < c.Conns; i++ {
+				tok := fmt.Sprintf("%02d%06d", d, i)
+				cn, err := kit.DialTCP(addr, c12Bound)
+				if err != nil {
+					if kit.EnvNetError(err) {
+						continue
+					}
+					mu.Lock()
+					if !failed {
+						failed, fnd = true, *kit.Violation("listener:refused", "connection %s refused while a handle was open throughout: %v", tok, err)
+					}
+					mu.Unlock()
+					return
+				}
+				cn.Write([]byte(tok))
+				cn.SetReadDeadline(time.Now().Add(c12Bound))
+				b := make([]byte, 1)
+				_, rerr := io.ReadFull(cn, b)
+				cn.SetLinger(0)
+				cn.Close()
+				if rerr != nil {
+					mu.Lock()
+					if !failed {
+						failed, fnd = true, *kit.Violation("listener:lost", "connection %s was accepted by the shared socket but not served by any handle (%v) although a handle was accepting at every instant (%d handle replacements so far)", tok, rerr, reloads)
+					}
+					mu.Unlock()
+					return
+				}
+			}
+		}(d)
+	}
+	dialers.Wait()
+	close(stop)
+	if f := <-churnDone; f != nil {
+		return f
+	}
+	cur.Close()
+	for _, l := range extras {
+		l.Close()
+	}
+	done := make(chan struct{})
+	go func() { loops.Wait(); close(done) }()
+	select {
+	case <-done:
+	case <-time.After(c12Bound):
+		return kit.Violation("listener:pending-call-not-unblocked", "accept loops did not end within %v of closing every handle", c12Bound)
+	}
+	if failed {
+		return &fnd
+	}
+	mu.Lock()
+	defer mu.Unlock()
+	for tok, n := range served {
+		if n != 1 {
+			return kit.Violation("listener:duplicate-delivery", "connection %s was served %d times", tok, n)
+		}
+	}
+	info.NonTrivial = reloads > 0
+	info.Steps = c.Dialers * c.Conns
+	info.Class(fmt.Sprintf("replacements>0:%v", reloads > 0))
+	return nil
+}
+
+func TestC12_Churn(t *testing.T) {
+	p := kit.Prop[C12Churn]{ID: "C12", Name: "Churn", Quick: 60, Thorough: 4000, Gen: genC12Churn, Run: runC12Churn}
+	p.Execute(t)
+}
